@@ -168,7 +168,7 @@ PROPS = {
     },
     "C03": {
         "level": "proof",
-        "verus": ["lexer", "cursor"],
+        "verus": ["lexer", "cursor", "lexer_numbers"],
         "frame": ["cursor_fields_written_only_by_primitives"],
         "kani": ["apollo-parser/lexer.rs", "apollo-parser/cursor.rs"],
         "technique": "Verus contract on the extracted lexer state machine (Cursor::advance) over a ghost cursor model (unbounded) + Kani loop-free harnesses over every char for the lookup tables",
@@ -180,14 +180,15 @@ PROPS = {
                        "Digit, `.` or NameStart; comment up to the line terminator). Every successfully returned StringValue token is either a quoted string of the grammar "
                        "`\"` StringCharacter* `\"` (StringCharacter = any char but `\"`, `\\`, LF, CR | `\\u` + exactly 4 hex digits | `\\` + EscapedCharacter; written as a left-linear grammar "
                        "q_open / q_body / q_backslash / q_unicode over the consumed prefix) or starts and ends with `\"\"\"`; Cursor::done returns Ok iff no error was recorded for the token. "
-                       "Kani proves for every char value that the lookup tables (Punctuator kinds, NameStart) and the character classes equal the October 2021 tables; these are the contracts "
+                       "Unit lexer_numbers (a second, lighter pass over the same extracted advance / eof) proves the converse for numbers -- `0e5`, `1.5e+3`, `-0`, `12,` can never be rejected -- and that an error "
+                       "recorded for one token cannot leak into the next. Kani proves for every char value that the lookup tables (Punctuator kinds, NameStart) and the character classes equal the October 2021 tables; these are the contracts "
                        "the Verus unit assumes for lookup::*.",
         "assumptions": ["Cursor's primitives bump / eatc / current_str / prev_str / drain / add_err / new (lexer/cursor.rs) are no longer assumed: unit `cursor` proves their extracted bodies against exactly the contracts the state machine's proof uses (shared clause lists), with a representation invariant tying index / offset / pending / the CharIndices iterator to the ghost model. Assumed instead: std's documented behaviour of CharIndices::next, str::len, byte-range slicing / str::get on char boundaries (shims)",
                         "the representation invariant holds whenever a primitive is called: established by Cursor::new, preserved by every primitive (proved), and nothing else writes the fields (frame check cursor_fields_written_only_by_primitives)",
                         "`&self.source[a..b]` is rewritten to str_slice(self.source, a, b) whose precondition is 'a <= b, both char boundaries' (std semantics of str slicing, assumed)",
                         "u32::from_str_radix(s, 16) is Ok for 1..=8 hex digits (std, assumed)"],
         "not_decided": ["block strings: only the `\"\"\"` delimiters are proved, not the BlockStringCharacter grammar (where the closing delimiter may and may not appear)",
-                        "the converse direction: an error is reported ONLY if the input is not a sequence of valid tokens (e.g. that `0123` MUST be an error is proved, that every error is justified is not)",
+                        "the converse direction (an error is reported ONLY if the input is not a sequence of valid tokens) is proved for NUMBERS only (unit lexer_numbers: an error on text starting with a digit or `-` means the text is no prefix of any number and not a complete number that may be followed by the offending char); for strings, names, punctuators and the start state it is not decided",
                         "byte offsets reported in Token::index / Error::index", "the documented exception for braced / surrogate-pair escapes"],
     },
     "C21": {
